@@ -135,7 +135,11 @@ def plan(tier):
     return specs
 
 
-LINE = st.sampled_from(['a', 'b', 'c', '', 'x y', ' a', 'a ', 'é\U0001f600', '#', '\\', 'a\r', '\r', 'x\ry', '  indented  ', '\ta'])
+LINE = st.sampled_from(['a', 'b', 'c', '', 'x y', ' a', 'a ', 'é\U0001f600', '#', '\\', 'a\r', '\r', 'x\ry', '  indented  ', '\ta',
+                        # lines that collide when lines are glued with a separator instead of compared one by one: backslash-n (two characters), comma, ...
+                        'a\\nb', 'b\\nc', 'a\\n', '\\nb', '\\n', 'a,b', 'b,c', 'a\x00b', 'a\\', 'nb',
+                        # lines that differ only by a lone surrogate / a combining mark / case
+                        'a\ud83d', '\ud83d', '\udc00a', 'smile \ud83d', 'smile ', 'e\u0301', '\u00e9', 'A', 'ａ'])
 
 
 @st.composite
@@ -153,7 +157,21 @@ def pair_strategy(draw):
         else:
             right.append(other)
     right.extend(draw(st.lists(LINE, max_size=3)))
-    mode = draw(st.sampled_from(['list', 'lf', 'crlf', 'chunks', 'mixed']))
+    mode = draw(st.sampled_from(['list', 'lf', 'crlf', 'chunks', 'mixed', 'regroup']))
+    if mode == 'regroup':
+        # the same atoms cut into the same NUMBER of lines at different places, the atoms of a line glued with a separator a careless comparison
+        # might itself use to glue lines (backslash-n as two characters, comma, NUL, ...): equal "joined" texts, different line lists
+        atoms = draw(st.lists(st.sampled_from(['a', 'b', 'c', 'ab', '']), min_size=3, max_size=7))
+        sep = draw(st.sampled_from(['\\n', ',', '\x00', ' ', '\\r\\n', '|', '\\', 'n']))
+        k = draw(st.integers(2, len(atoms) - 1))
+
+        def cut(points):
+            pts = [0] + sorted(points) + [len(atoms)]
+            return [sep.join(atoms[pts[i]:pts[i + 1]]) for i in range(len(pts) - 1)]
+        positions = list(range(1, len(atoms)))
+        p1 = draw(st.lists(st.sampled_from(positions), min_size=k - 1, max_size=k - 1, unique=True))
+        p2 = draw(st.lists(st.sampled_from(positions), min_size=k - 1, max_size=k - 1, unique=True))
+        return cut(p1), cut(p2)
     if mode == 'list':
         return left, right
     if mode in ('lf', 'crlf'):
